@@ -38,6 +38,7 @@ type runner struct {
 	filt bool
 	sf   bool
 	auto bool
+	noep bool
 	winAtRead []int // offsets retained in history when it was read
 
 	mu         sync.Mutex
@@ -395,7 +396,7 @@ func tagsFilter() *protocol.FilterNode {
 
 func (w *worker) run(bi int, beh []map[string]any, res *vh.Result) {
 	cfg := vh.Map(beh[0]["cfg"])
-	r := &runner{w: w, ch: fmt.Sprintf("ss%d_%d", vh.Seed(), bi), cfg: cfg, kind: vh.Str(cfg["kind"]), filt: vh.Bool(cfg["filt"]), sf: vh.Bool(cfg["sf"]), auto: vh.Bool(cfg["auto"]),
+	r := &runner{w: w, ch: fmt.Sprintf("ss%d_%d", vh.Seed(), bi), cfg: cfg, kind: vh.Str(cfg["kind"]), filt: vh.Bool(cfg["filt"]), sf: vh.Bool(cfg["sf"]), auto: vh.Bool(cfg["auto"]), noep: vh.Bool(cfg["noep"]),
 		deliveries: map[int]delivery{}, g1: cl.NewGate()}
 	if r.kind == "pos" || r.kind == "rec" || r.kind == "cache" {
 		r.g2, r.g3 = cl.NewGate(), cl.NewGate()
